@@ -71,7 +71,7 @@ class ReadWritePropertyServices(Capability):
                 elif not isinstance(value, datatype.subtype):
                     raise TypeError("invalid result datatype, expecting {0} and got {1}" \
                         .format(datatype.subtype.__name__, type(value).__name__))
-            elif issubclass(datatype, List):
+            elif issubclass(datatype, List) and not isinstance(value, datatype):
                 value = datatype(value)
             elif not isinstance(value, datatype):
                 raise TypeError("invalid result datatype, expecting {0} and got {1}" \
